@@ -100,6 +100,9 @@ def systematic():
     yield "float", [("const", 1)], [1.0, 2.0]
     yield "str", [("const", "a")], ["a", "b", "", "A"]
     yield "bool", [("const", True)], [True, False]
+    # a constant or an enumeration declared beside other constraints (known finding: the others are dropped)
+    yield "int", [("enum", [1, 2, 3]), ("gt", 1)], [1, 2]
+    yield "int", [("const", 1), ("multiple_of", 3)], [1]
     # None is a constant like any other (a rule without origin: every value is well typed)
     yield "", [("const", None)], [None, 0, False, "", "None", 1]
     yield "", [("const", 0)], [0, None, False, 0.0]
